@@ -680,6 +680,9 @@ def check_state(world, call_ok, op, excused_flag=None):
     flipped = 0
     for name, tok in world.toks.items():
         cfg = simtok.config_of(tok)
+        # configuration = the attributes the tokenizer was constructed with; an
+        # attribute added later (a private memo) is not configuration
+        cfg = dict((k, v) for k, v in cfg.items() if k in world.tok_cfg[name])
         if cfg != world.tok_cfg[name]:
             only_flag = all(cfg.get(k) == v for k, v in
                             world.tok_cfg[name].items() if k != 'return_set') \
@@ -735,6 +738,10 @@ def flag_events_ok(out):
     replaced."""
     problems = []
     by_tok = {}
+    if out.fanouts and all(f['mode'] == 'process' for f in out.fanouts):
+        # a process worker flips its own pickled copy: the caller's object is
+        # not involved
+        return problems
     for (_, _, actor, kind, detail) in out.events:
         if kind == 'set_flag':
             tid, val = detail
